@@ -405,7 +405,10 @@ def run(res, tier):
             if rhs.get('v') == 0 or rhs['k'] in ('GNUNullExpr', 'CXXNullPtrLiteralExpr'):
                 continue
             n5 += 1
-            det = P.calls(f, r'::RemovePulseChild$')
+            # the detach call itself, or the call of a PulseNode helper that makes it on every path on which the old parent exists (msa/ip.py)
+            from msa import ip as IP5
+            det = IP5.must_sites(fx, f, lambda c_: c_.is_call() and (c_.get('q') or '').endswith('::RemovePulseChild'), '^' + PN + '::(?!RemovePulseChild$)',
+                                 escapes=lambda g_: P.escape_edges(g_, status=False, null=True))
             ok = bool(det) and P.must_precede(f, det, w, escapes=P.escape_edges(f, status=False, null=True))
             res.ob('DETACH-FIRST', f.where(w), '%s: the old parent detaches the child before its _parent is overwritten' % f.q.split('::')[-1], ok, function=f.q, key='DETACH-FIRST|%s' % f.q,
                    message='%s overwrites the child\'s _parent before the old parent\'s RemovePulseChild() ran (or without it): RemovePulseChild() tests `child->_parent == this` and now does nothing, '
